@@ -288,6 +288,16 @@ def run(ck, F, E):
                    "variable warning is issued on the !variables.has(symbol) arm",
                    "the undeclared-variable warning is no longer conditioned on !variables.has(symbol)", et.span)
 
+        # ... and exactly when the variable store is what gets read: the warning is followed on every path by
+        # Variables::get (a name resolved elsewhere -- a DEF FN parameter found on the stack -- is not an unassigned variable)
+        gets = [c for c in et.calls() if sfx(c.callee, "Variables::get")]
+        pdom = et.postdominators()
+        ok2 = bool(warn) and all(any(g.bb in pdom.get(w.bb, set()) or g.bb == w.bb for g in gets) for w in warn)
+        ck.require(ok2, "C17:WARN:variable-read-follows", "warning condition",
+                   "every undeclared-variable warning is post-dominated by the Variables::get it is about (%d warn, %d get)" % (len(warn), len(gets)),
+                   "in evaluate_expression_term the undeclared-variable warning is issued on a path that does not go on to read the "
+                   "variable store (e.g. the name is then resolved as a function argument on the stack): a spurious warning", et.span)
+
     # ---- the output queue is write-only inside the core
     uses = {}
     for body in F.bodies.values():
